@@ -22,6 +22,6 @@ for k in $(seq 1 $J); do
   ) > /tmp/regress$k.log 2>&1 &
 done
 wait
-cat /tmp/regress?.log | sort
-echo "not detected by the property's own check:"; cat /tmp/regress?.log | grep -v VIOLATION
+cat /tmp/regress[0-9]*.log | sort
+echo "not detected by the property's own check:"; cat /tmp/regress[0-9]*.log | grep -v VIOLATION
 for k in $(seq 1 $J); do rm -rf /tmp/regress$k /tmp/regress$k.log; done
